@@ -875,8 +875,13 @@ func (st *tunnelClientStream) finishStream(err error, trailers metadata.MD) bool
 	verifYield("cli.finish.cas", st.streamID)
 	st.ch.removeStream(st.streamID)
 	verifYield("cli.finish.removed", st.streamID)
-	st.receiver.close()
-	verifYield("cli.finish.rcvclosed", st.streamID)
+	// Publish trailers before closing the receiver: closing the receiver lets a
+	// blocked RecvMsg return the terminal result, after which the caller is
+	// entitled to read the trailers.
+	defer func() {
+		st.receiver.close()
+		verifYield("cli.finish.rcvclosed", st.streamID)
+	}()
 
 	st.metaMu.Lock()
 	defer st.metaMu.Unlock()
